@@ -352,3 +352,38 @@ pub fn index_of(cfg: &ConfigSpec) -> BTreeMap<String, usize> {
         .map(|(i, t)| (t.path.clone(), i))
         .collect()
 }
+
+/// A layered configuration: `layers[i]` targets in layer i; every target of layer
+/// i>0 uses at least one target of layer i-1 (chosen by `picks`).
+pub fn layered_config(layers: &[usize], picks: &[u16]) -> ConfigSpec {
+    let mut targets = vec![];
+    let mut k = 0usize;
+    let mut pk = |m: usize| {
+        let v = pick(picks.get(k % picks.len().max(1)).copied().unwrap_or(0), m);
+        k += 1;
+        v
+    };
+    for (li, &cnt) in layers.iter().enumerate() {
+        for j in 0..cnt {
+            let mut t = TargetSpec::new(&format!("l{}t{}", li, j));
+            if li > 0 {
+                let prev = layers[li - 1];
+                let first = pk(prev);
+                t.uses.push(format!("l{}t{}", li - 1, first));
+                let extra = pk(3);
+                for _ in 0..extra {
+                    let o = pk(prev);
+                    let u = format!("l{}t{}", li - 1, o);
+                    if !t.uses.contains(&u) {
+                        t.uses.push(u);
+                    }
+                }
+            }
+            targets.push(t);
+        }
+    }
+    ConfigSpec {
+        targets,
+        ..Default::default()
+    }
+}
